@@ -97,6 +97,12 @@ class C14(Plugin):
                  "not", "ampx", "amp=", "\x00", "#" + "0" * 5000 + "65;", "#" + "9" * 5000 + ";"]
                 for a in (0, 1) for al in (None, '"', "'", ">")]
         out += [{"k": 3, "lo": lo, "n": 512} for lo in (0, 0xD700, 0xFD00, 0xFF00, 0x1FE00, 0x10FE00, 0x10FF00)]
+        # references whose replacement is a space-like character that is NOT HTML whitespace, where whitespace is ignored
+        for ref in ("&nbsp;", "&emsp;", "&thinsp;", "&ThickSpace;", "&#160;", "&#xA0", "&#x3000;", "&#8232;", "&#x1F;", "&#x85;", "&#11;",
+                    "&NoBreak;", "&zwnj;", "&#32;", "&Tab;", "&NewLine;"):
+            for ctx in ("doc", "afterhead", "data"):
+                out.append({"k": 4, "text": ref + "x", "ctx": ctx})
+                out.append({"k": 4, "text": " " + ref, "ctx": ctx})
         # the reference written for an unencodable code point: every code point that has a named entity, and boundaries
         from html5lib.serializer import _encode_entity_map
         named = sorted(_encode_entity_map)
@@ -152,7 +158,7 @@ class C14(Plugin):
                         parts.append("&#%d%s" % (rng.randrange(0x110100), rng.choice([";", ""])))
                     else:
                         parts.append(rng.choice(["a", "=", "b ", "&", "&#", "&x;", "é", "1", ";"]))
-                yield {"k": 4, "text": "".join(parts), "ctx": rng.choice(["data", "rcdata", "dq", "sq", "unq"])}
+                yield {"k": 4, "text": "".join(parts), "ctx": rng.choice(["data", "rcdata", "dq", "sq", "unq", "doc", "afterhead"])}
             else:
                 t = "".join(rng.choice(["a", "<", "&", ">", "\"", "é", "€", "∉", "\U0001d504", "\xa0", "'",
                                         "\x85", "\x9f", "﷐", "\x7f", "\x01"])
@@ -236,6 +242,13 @@ class C14(Plugin):
             if ctx == "data":
                 d = html5lib.parseFragment("<p>" + text + "</p>", treebuilder="dom")
                 return ["".join(c.nodeValue for c in d.firstChild.childNodes)]
+            if ctx in ("doc", "afterhead"):
+                # text at the very start of a document / right after </head>: the tree builder ignores WHITESPACE
+                # there, so a decoded character that is wrongly taken for whitespace disappears
+                pre = "" if ctx == "doc" else "<!DOCTYPE html><head><title>t</title></head>"
+                d = html5lib.parse(pre + text, treebuilder="dom")
+                body = d.getElementsByTagName("body")[0]
+                return ["".join(c.nodeValue for c in body.childNodes if c.nodeType == c.TEXT_NODE)]
             if ctx == "rcdata":
                 d = html5lib.parseFragment("<textarea>x" + text + "</textarea>", treebuilder="dom")
                 d.normalize()
@@ -288,8 +301,12 @@ class C14(Plugin):
                     return v
             elif "<" in txt:
                 return v
-            allowed = {"dq": '"', "sq": "'", "unq": ">", "data": None, "rcdata": None}[case["ctx"]]
+            allowed = {"dq": '"', "sq": "'", "unq": ">", "data": None, "rcdata": None, "doc": None, "afterhead": None}[case["ctx"]]
             want = spec_text(txt, case["ctx"] in ("dq", "sq", "unq"), allowed)
+            if case["ctx"] in ("doc", "afterhead"):
+                want = want.lstrip("\t\n\x0c\r ")          # whitespace before the body is not inserted
+                if "\x00" in want or "\r" in want:
+                    return v
             if out[0] != want:
                 v.append(("reference-decoded-differently", repr((case["ctx"], txt, out[0], want))))
         if k == 5:
